@@ -176,6 +176,12 @@ class Tree(object):
             root.adjust(cap)
             self.adjust_log.append((0, (), cap, True))
         root.update(self.dates[0])
+        # optional: fund sub-strategies on the first date so that trades inside them are
+        # not refused by the zero-base guard (an unfunded variant is explored as well)
+        for path, child, amt in spec.get("prefund", []):
+            self.node(path).allocate(float(amt), child=child)
+        if spec.get("prefund"):
+            root.update(self.dates[0])
 
     # ------------------------------------------------------------------
     def node(self, path):
